@@ -114,6 +114,12 @@ Fixpoint wdq_loop (text : str) (fuel : nat) (start end_ : nat) (out : str) : str
 Definition write_double_quoted_loop (s : str) : str :=
   wdq_loop s (S (S (length s))) 0 0 [DQ] ++ [DQ].
 
+(* what may appear on the output line: printable, no line break, no BOM *)
+Definition line_safe (c : N) : bool :=
+  ((0x20 <=? c) && (c <=? 0x7E))
+  || ((0xA0 <=? c) && (c <=? 0xD7FF) && negb (c =? 0x2028) && negb (c =? 0x2029))
+  || ((0xE000 <=? c) && (c <=? 0xFFFD) && negb (c =? 0xFEFF)).
+
 (* ------------------------------------------------------------------ *)
 (* Part 1c: the concatenation sites of vcr_writer                      *)
 (* ------------------------------------------------------------------ *)
@@ -375,7 +381,7 @@ Record inter := {
   i_id : N;                 (* case id: key of recorder.interactions *)
   i_userinfo : bool;        (* the request URL has a userinfo part *)
   i_response : bool;        (* a response was received (record_response vs record_request) *)
-  i_codec_known : bool      (* response.encoding is None or a codec Python knows *)
+  i_codec_known : bool      (* response.encoding is None or a codec Python knows, or the payload is empty (no lookup) *)
 }.
 Inductive fmt := VCR | HAR.
 Record wconf := { w_fmt : fmt; w_sanitize : bool; w_preserve : bool }.
@@ -399,13 +405,20 @@ Definition cassette_queue (h : list cevent) : list qmsg :=
 
 Inductive wend := Closed | Died | Waiting.   (* file closed / thread died with an exception / blocked in queue.get *)
 
-Fixpoint write_entries (w : wconf) (ints : list inter) (out : list N) : list N * bool :=
+(* entries reaching the file: (case id, complete).  The VCR writer has already written the head of an
+   entry (id, checks, request, response status and headers) when decode raises: that entry stays in the
+   file truncated, without body and http_version.  The HAR writer raises before add_entry. *)
+Definition truncated_entry (w : wconf) (i : inter) : list (N * bool) :=
+  match w_fmt w with VCR => [(i_id i, false)] | HAR => [] end.
+
+Fixpoint write_entries (w : wconf) (ints : list inter) (out : list (N * bool)) : list (N * bool) * bool :=
   match ints with
   | [] => (out, true)
-  | i :: rest => if entry_raises w i then (out, false) else write_entries w rest (out ++ [i_id i])
+  | i :: rest => if entry_raises w i then (out ++ truncated_entry w i, false)
+                 else write_entries w rest (out ++ [(i_id i, true)])
   end.
 
-Fixpoint writer_loop (w : wconf) (q : list qmsg) (out : list N) : list N * wend :=
+Fixpoint writer_loop (w : wconf) (q : list qmsg) (out : list (N * bool)) : list (N * bool) * wend :=
   match q with
   | [] => (out, Waiting)
   | QInit :: q' => writer_loop w q' out             (* VCR writes the preamble, HAR ignores it *)
@@ -417,7 +430,8 @@ Fixpoint writer_loop (w : wconf) (q : list qmsg) (out : list N) : list N * wend 
 
 Definition delivered (h : list cevent) : list N :=
   flat_map (fun e => match e with CScenario ints => map i_id ints | COther => [] end) h.
-Definition written (w : wconf) (h : list cevent) : list N * wend := writer_loop w (cassette_queue h) [].
+Definition complete (ids : list N) : list (N * bool) := map (fun i => (i, true)) ids.
+Definition written (w : wconf) (h : list cevent) : list (N * bool) * wend := writer_loop w (cassette_queue h) [].
 Definition no_entry_raises (w : wconf) (h : list cevent) : bool :=
   forallb (fun e => match e with CScenario ints => forallb (fun i => negb (entry_raises w i)) ints | COther => true end) h.
 
